@@ -434,9 +434,231 @@ def register(GROUPS, c2g, incs, REPO, HERE, STRUCTS, Group):
         g.add(t, i)
         f3 = os.path.join(REPO, "src", "sc_shmem.c")
         objs3 = c2g.clang_ast(f3, "sc_shmem_", incs(tmp))
+        dv = c2g.find_var(objs3, "sc_shmem_default_type")
+        init = [c for c in dv.get("inner", []) if isinstance(c, dict) and c.get("kind") != "FullComment"][-1]
+        init = c2g.skip_parens(init)
+        while init.get("kind") in ("ImplicitCastExpr", "CStyleCastExpr", "ConstantExpr"):
+            init = c2g.skip_parens(init["inner"][0])
+        if init.get("kind") == "DeclRefExpr" and init["referencedDecl"]["name"] in sconsts:
+            dval = sconsts[init["referencedDecl"]["name"]]
+        elif "value" in init:
+            dval = int(init["value"])
+        else:
+            raise c2g.Unsupported("initialiser of sc_shmem_default_type")
+        g.add("Definition init_sc_shmem_default_type : Z := %s.\n" % c2g.lit(dval).z(), dict(name="init_sc_shmem_default_type", fuel=False, params=[]))
         for fn in ["sc_shmem_get_type", "sc_shmem_set_type"]:      # serial configuration
             t, i = translate_acc(c2g.find_function(objs3, fn), sconsts, gname=fn + "_serial")
             g.add(t, i)
         return g, [f, f2, f3]
 
     GROUPS["AccessC20"] = gen_access
+
+    # ------------------------------------------------------------------------------------------
+    # UseC20: (a) the places that write the configuration fields OUTSIDE the setters - sc_notify_new, sc_notify_set_type,
+    # sc_notify_nary_init, sc_notify_ranges_init - as slices (calls become ghost outputs: was it called, with which
+    # arguments), (b) a census of EVERY store into / address taken of a configuration field and every call of a writer
+    # in sc_notify.c, of the spacing fields in sc_options.c and of the attribute calls in sc_shmem.c (MPI configuration).
+    # A new writer of a configuration field (a round that re-initialises, a lazy initialisation) changes the census and the
+    # theorem C20_gen_writers no longer holds, before any input is run.
+    import slicelib as sl
+    import copy as _copy
+
+    ENUM_TYPEDEFS = ("sc_shmem_type_t", "sc_notify_type_t")
+
+    def make_slice_class(consts):
+        class AccSliceT(sl.SliceT):
+            def expr(self, n, env):
+                if n.get("kind") in ("ImplicitCastExpr", "CStyleCastExpr") and n.get("castKind") == "IntegralCast" and \
+                        (c2g.strip_quals(c2g.tystr(n)) in ENUM_TYPEDEFS or c2g.strip_quals(c2g.tystr(n["inner"][0])) in ENUM_TYPEDEFS):
+                    return self.expr(n["inner"][0], env)
+                if n.get("kind") == "DeclRefExpr":
+                    rd = n["referencedDecl"]
+                    if rd.get("kind") == "EnumConstantDecl":
+                        if rd["name"] not in consts:
+                            raise c2g.Unsupported("constant %s" % rd["name"])
+                        return c2g.lit(consts[rd["name"]])
+                return super().expr(n, env)
+        return AccSliceT
+
+    def unchain(stmts):
+        """a = b = e;  ->  b = e; a = b;   (same stores, same order of evaluation)"""
+        out = []
+        for st in stmts:
+            if st.get("kind") == "BinaryOperator" and st.get("opcode") == "=":
+                r = c2g.skip_parens(st["inner"][1])
+                if r.get("kind") == "BinaryOperator" and r.get("opcode") == "=":
+                    ilhs = r["inner"][0]
+                    out += unchain([r])
+                    rv = dict(kind="ImplicitCastExpr", castKind="LValueToRValue", type=ilhs.get("type"), inner=[ilhs])
+                    out.append(dict(st, inner=[st["inner"][0], rv]))
+                    continue
+            out.append(st)
+        return out
+
+    def slice_fn(objs, consts, name, outputs, want, **kw):
+        fn = c2g.find_function(objs, name)
+        body = unchain([c for c in fn["inner"] if c.get("kind") == "CompoundStmt"][0].get("inner", []))
+        orig = sl.SliceT
+        sl.SliceT = make_slice_class(consts)
+        try:
+            return sl.emit_block(body, "slice_" + name, outputs, name, want_params=want, **kw)
+        finally:
+            sl.SliceT = orig
+
+    ASSIGN_OPS = ("=", "+=", "-=", "*=", "/=", "%=", "&=", "|=", "^=", "<<=", ">>=")
+
+    def strip_casts(n):
+        n = c2g.skip_parens(n)
+        while n.get("kind") in ("ImplicitCastExpr", "CStyleCastExpr"):
+            n = c2g.skip_parens(n["inner"][0])
+        return n
+
+    def type_text(n):
+        t = n.get("type", {})
+        return (t.get("qualType", "") + " | " + t.get("desugaredQualType", ""))
+
+    def member_path(n, rec_re):
+        """n (casts stripped) is a member chain rooted in an object of the record type: the dotted path, else None"""
+        n = strip_casts(n)
+        path = []
+        while n.get("kind") == "MemberExpr":
+            path.insert(0, n.get("name"))
+            base = strip_casts(n["inner"][0])
+            if re.search(rec_re, type_text(base)):
+                return ".".join(path)
+            n = base
+        if n.get("kind") == "ArraySubscriptExpr":
+            return member_path(n["inner"][0], rec_re)
+        return None
+
+    def census(objs, cfile, rec_re, config_fields, watch_calls, name_filter, tmp, extra_cc=()):
+        """[(function, 'store:<path>' | 'addr:<path>' | 'call:<callee>')] over every function defined in cfile"""
+        text = open(cfile).read()
+        res = []
+        seen_fns = set()
+
+        def visit(fname, n):
+            if not isinstance(n, dict):
+                return
+            k = n.get("kind")
+            if k in ("BinaryOperator", "CompoundAssignOperator") and n.get("opcode") in ASSIGN_OPS:
+                lhs = strip_casts(n["inner"][0])
+                pth = member_path(lhs, rec_re)
+                if pth is not None:
+                    res.append((fname, "store:" + pth))
+                elif lhs.get("kind") == "UnaryOperator" and lhs.get("opcode") == "*" and re.search(rec_re, type_text(strip_casts(lhs["inner"][0]))):
+                    res.append((fname, "store:*"))
+            if k == "UnaryOperator" and n.get("opcode") in ("++", "--"):
+                pth = member_path(n["inner"][0], rec_re)
+                if pth is not None:
+                    res.append((fname, "store:" + pth))
+            if k == "UnaryOperator" and n.get("opcode") == "&":
+                pth = member_path(n["inner"][0], rec_re)
+                if pth is not None and pth.split(".")[0] in config_fields:
+                    res.append((fname, "addr:" + pth))
+            if k == "CallExpr":
+                callee = strip_casts(n["inner"][0]).get("referencedDecl", {}).get("name")
+                if callee in watch_calls:
+                    res.append((fname, "call:" + callee))
+                if callee in ("memset", "memcpy", "memmove", "__builtin_memset", "__builtin_memcpy", "__builtin_memmove", "bzero") and len(n["inner"]) > 1:
+                    a0 = strip_casts(n["inner"][1])
+                    if re.search(rec_re, type_text(a0)) and a0.get("kind") != "UnaryOperator":
+                        res.append((fname, "addr:*"))
+            for c in n.get("inner", []):
+                visit(fname, c)
+        def take(objs_):
+            for o in objs_:
+                if o.get("kind") == "FunctionDecl" and o.get("name") not in seen_fns and any(c.get("kind") == "CompoundStmt" for c in o.get("inner", [])):
+                    seen_fns.add(o["name"])
+                    for c in o["inner"]:
+                        if c.get("kind") == "CompoundStmt":
+                            visit(o["name"], c)
+        take(objs)
+        # completeness of the function list: every function of the object file is in the census or comes from a header
+        ofile = os.path.join(tmp, "c20_census_%s.o" % os.path.basename(cfile))
+        pr = subprocess.run(["gcc", "-O0", "-w", "-c"] + ["-I" + i for i in incs(tmp)] + list(extra_cc) + [cfile, "-o", ofile], stdout=subprocess.PIPE, stderr=subprocess.STDOUT)
+        if pr.returncode != 0:
+            raise c2g.Unsupported("census: %s does not compile: %s" % (cfile, pr.stdout.decode()[-300:]))
+        for ln in subprocess.run(["nm", ofile], stdout=subprocess.PIPE).stdout.decode().split("\n"):
+            w = ln.split()
+            if len(w) == 3 and w[1] in "tT" and w[2] not in seen_fns and re.search(r"^%s\s*\(" % re.escape(w[2]), text, re.M):
+                take(c2g.clang_ast(cfile, w[2], incs(tmp)))       # a function of this file whose name the filter does not match
+                if w[2] not in seen_fns:
+                    raise c2g.Unsupported("census: function %s of %s is not covered" % (w[2], os.path.basename(cfile)))
+        out = []
+        for x in res:
+            if x not in out:
+                out.append(x)
+        return sorted(out)
+
+    def coq_pairs(name, pairs, comment):
+        t = "(* %s *)\nDefinition %s : list (string * string) :=\n  [" % (comment, name)
+        t += ";\n   ".join('("%s"%%string, "%s"%%string)' % p for p in pairs)
+        return t + "].\n"
+
+    def gen_use(tmp):
+        g = Group("UseC20")
+        g.add("From Coq Require Import String.\n", dict(name="_imports", fuel=False, params=[]))
+        f = os.path.join(REPO, "src", "sc_notify.c")
+        tnames = ["SC_NOTIFY_DEFAULT", "SC_NOTIFY_ALLGATHER", "SC_NOTIFY_BINARY", "SC_NOTIFY_NARY", "SC_NOTIFY_PEX", "SC_NOTIFY_PCX",
+                  "SC_NOTIFY_RSX", "SC_NOTIFY_NBX", "SC_NOTIFY_RANGES", "SC_NOTIFY_SUPERSET", "SC_NOTIFY_NUM_TYPES"]
+        consts = compile_consts(tmp, tnames, "sc_notify.h")
+        objs = c2g.clang_ast(f, "sc_notify", incs(tmp))
+        for name, outs, want, kw in [
+            ("sc_notify_ranges_init", ["notify_data_ranges_num_ranges", "notify_data_ranges_package_id"],
+             ["sc_notify_ranges_num_ranges_default", "sc_package_id"], {}),
+            ("sc_notify_nary_init", ["notify_data_nary_mpicomm", "notify_data_nary_mpisize", "notify_data_nary_mpirank", "*ghosts"],
+             ["sc_notify_get_comm_ret", "sc_MPI_Comm_size_ret", "mpisize", "sc_MPI_Comm_rank_ret", "mpirank", "notify",
+              "sc_notify_nary_ntop_default", "sc_notify_nary_nint_default", "sc_notify_nary_nbot_default"],
+             dict(effects=("sc_MPI_Comm_size", "sc_MPI_Comm_rank", "sc_notify_nary_set_widths"), symbolic_calls=("sc_notify_get_comm",))),
+            ("sc_notify_set_type", ["notify_type", "ret", "*ghosts"],
+             ["sc_notify_get_type_ret", "in_type", "sc_notify_type_default", "notify", "notify_type"],
+             dict(ret="ret", effects=("sc_notify_ranges_init", "sc_notify_nary_init"), effect_called=True, symbolic_calls=("sc_notify_get_type",))),
+            ("sc_notify_new", ["ret", "notify_mpicomm", "notify_type", "notify_eager_threshold", "*ghosts"],
+             ["sc_calloc_ret", "comm", "sc_notify_eager_threshold_default", "sc_notify_type_default"],
+             dict(ret="ret", effects=("sc_notify_set_type",), drop_calls=("sc_flops_start_nopapi",), symbolic_calls=("sc_calloc",)))]:
+            t, i = slice_fn(objs, consts, name, outs, want, **kw)
+            g.add(t, i)
+        WRITERS = ("sc_notify_set_type", "sc_notify_nary_init", "sc_notify_ranges_init", "sc_notify_set_eager_threshold", "sc_notify_set_stats",
+                   "sc_notify_nary_set_widths", "sc_notify_ranges_set_num_ranges", "sc_notify_ranges_set_package_id", "sc_notify_superset_set_callback")
+        cz = census(objs, f, r"\bsc_notify_t\b|\bstruct sc_notify_s\b|\bstruct sc_notify\b", ("mpicomm", "type", "eager_threshold", "stats", "data"), WRITERS, "sc_notify", tmp)
+        g.add(coq_pairs("c20_notify_writers", cz, "sc_notify.c: every store into a field of a controller (store:<path>), every address taken of a configuration field "
+                        "(addr:<path>; the timing record `flop` is not configuration) and every call of a function that writes configuration (call:<callee>), by function"),
+              dict(name="c20_notify_writers", fuel=False, params=[]))
+        f2 = os.path.join(REPO, "src", "sc_options.c")
+        objs2 = c2g.clang_ast(f2, "sc_options", incs(tmp))
+        cz2 = [x for x in census(objs2, f2, r"\bsc_options_t\b|\bstruct sc_options\b", ("space_type", "space_help"), ("sc_options_set_spacing",), "sc_options", tmp)
+               if x[1].split(":", 1)[1].split(".")[0] in ("space_type", "space_help", "sc_options_set_spacing", "*")]
+        g.add(coq_pairs("c20_spacing_writers", cz2, "sc_options.c: stores into / addresses of the two spacing fields and calls of sc_options_set_spacing"),
+              dict(name="c20_spacing_writers", fuel=False, params=[]))
+        # sc_shmem.c in the MPI configuration: who sets or deletes the communicator attribute, who calls the setter
+        f3 = os.path.join(REPO, "src", "sc_shmem.c")
+        mtmp = os.path.join(tmp, "c20_mpi_inc")
+        os.makedirs(os.path.join(mtmp, "inc"), exist_ok=True)
+        vlib.make_config_h(os.path.join(mtmp, "inc", "sc_config.h"), "ompi", True, False, ())
+        mflags = [x[2:] for x in subprocess.run(["mpicc", "--showme:compile"], stdout=subprocess.PIPE).stdout.decode().split() if x.startswith("-I")]
+        minc = [os.path.join(mtmp, "inc")] + [i for i in incs(tmp) if i != os.path.join(tmp, "inc")] + mflags
+        objs3 = c2g.clang_ast(f3, "sc_shmem", minc)
+        calls = []
+
+        def cv(fname, n):
+            if isinstance(n, dict):
+                if n.get("kind") == "CallExpr":
+                    cal = strip_casts(n["inner"][0]).get("referencedDecl", {}).get("name")
+                    if cal in ("sc_shmem_set_type", "MPI_Comm_set_attr", "MPI_Comm_delete_attr", "MPI_Attr_put", "MPI_Attr_delete", "PMPI_Comm_set_attr", "PMPI_Comm_delete_attr"):
+                        if (fname, "call:" + cal) not in calls:
+                            calls.append((fname, "call:" + cal))
+                for c in n.get("inner", []):
+                    cv(fname, c)
+        nfun = 0
+        for o in objs3:
+            if o.get("kind") == "FunctionDecl" and any(c.get("kind") == "CompoundStmt" for c in o.get("inner", [])):
+                nfun += 1
+                cv(o["name"], o)
+        if nfun < 10:
+            raise c2g.Unsupported("census of sc_shmem.c (MPI configuration): only %d functions parsed" % nfun)
+        g.add(coq_pairs("c20_shmem_writers", sorted(calls), "sc_shmem.c with SC_ENABLE_MPI: calls that set or delete the communicator attribute, calls of sc_shmem_set_type"),
+              dict(name="c20_shmem_writers", fuel=False, params=[]))
+        return g, [f, f2, f3]
+
+    GROUPS["UseC20"] = gen_use
